@@ -38,7 +38,7 @@ def run(tier, seed):
     cp = os.path.join(d, "cases.ndjson")
     common.write_ndjson(cp, cases)
     rp = os.path.join(d, "report.json")
-    rc, so, se = common.run_bin("addrbook_replay", [cp, rp], timeout=3000)
+    rc, so, se = common.run_bin("addrbook_replay", [cp, rp], timeout=(600 if tier == "quick" else 3000))
     if rc != 0:
         raise common.ToolError("addrbook_replay failed: " + se[-800:])
     rep = common.load_report(rp)
